@@ -40,7 +40,7 @@ BUILTIN_EXC = ["EOFError", "OSError", "TimeoutError", "ValueError", "IndexError"
                "OverflowError", "StopIteration", "Exception"]
 LIB_EXC = ["RTCMMessageError", "RTCMParseError", "RTCMStreamError", "RTCMTypeError"]
 BUILTINS = ["len", "bytes", "bytearray", "int", "str", "min", "isinstance", "getattr", "setattr", "super", "staticmethod", "property",
-            "chr", "bin", "range", "tuple", "Exception"]
+            "chr", "bin", "range", "tuple", "Exception", "hasattr"]
 CONST_MODULE = "pyrtcm.rtcmtypes_core"
 
 SPEC = {
@@ -84,6 +84,39 @@ SPEC = {
         "functions": True,
         "ext": {},
         "tables": {"RTCM_DATA_FIELDS": "pyrtcm.rtcmtypes_core"},
+        "exc_alias": {},
+        "zconsts": {},
+    },
+    # the array helper of rtcmhelpers (C18): a module-level function over a message object of the ENVIRONMENT -- its first parameter
+    # `msg` may only occur as msg.<attr>, getattr(msg, e), hasattr(msg, e); each is a question to the environment (Src/ArrEnv.v)
+    "arr": {
+        "file": "rtcmhelpers.py", "cls": None,
+        "methods": ["parse_msm"],
+        "static": ["parse_msm"],
+        "functions": True,
+        "lists": True,                             # list / dict displays are real lists / dicts (value semantics, see alias_discipline)
+        "range2": True,                            # for x in range(a, b)
+        "objparam": 0,                             # which parameter is the message object
+        "objclass": ("rtcmmessage.py", "RTCMMessage"),
+        "objprops": ["identity", "ismsm"],         # must be properties of that class; every other msg.<x> must NOT be bound in the class
+        "ext": {},
+        "tables": {"RTCM_PAYLOADS_GET_MSM": "pyrtcm.rtcmtypes_get_msm", "GNSSMAP": "pyrtcm.rtcmtypes_core"},
+        "exc_alias": {},
+        "zconsts": {},
+    },
+    # the other array helper (4076_201 harmonic coefficients): its own key, so that a rewrite of one helper does not take the other's tie away
+    "arr2": {
+        "file": "rtcmhelpers.py", "cls": None,
+        "methods": ["parse_4076_201"],
+        "static": ["parse_4076_201"],
+        "functions": True,
+        "lists": True,
+        "nested": True,                            # x[k1][k2] = v and x[k1][k2].append(v) on a local x, see Meth.nested_store
+        "objparam": 0,
+        "objclass": ("rtcmmessage.py", "RTCMMessage"),
+        "objprops": ["identity"],
+        "ext": {},
+        "tables": {"COEFFS": "pyrtcm.rtcmtypes_core"},
         "exc_alias": {},
         "zconsts": {},
     },
@@ -200,6 +233,26 @@ class Ctx:
             except Unsupported:
                 pass
         self.builtins = [b for b in BUILTINS if self.binds.get(b, 0) == 0 and b not in self.glob]
+        self.obj_reserved = None
+        if spec.get("objclass"):
+            # the class of the message object handed to the functions: the names bound in its body (methods, properties); the ones
+            # listed as "objprops" must be plain properties defined once
+            ofile, ocls = spec["objclass"]
+            opath = os.path.join(repo, "src", "pyrtcm", ofile)
+            otree = ast.parse(open(opath).read())
+            ocl = [n for n in otree.body if isinstance(n, ast.ClassDef) and n.name == ocls]
+            if len(ocl) != 1 or scope_bindings(otree.body, opath).get(ocls, 0) != 1 or ocl[0].bases or ocl[0].keywords or ocl[0].decorator_list:
+                raise Unsupported("%s: class %s is not a plain class bound exactly once" % (opath, ocls))
+            ocb = scope_bindings(ocl[0].body, opath)
+            for n in ("__getattr__", "__getattribute__", "__delattr__", "__slots__"):
+                if ocb.get(n, 0) != 0:
+                    raise Unsupported("%s: %s defined in class %s" % (opath, n, ocls))
+            for pn in spec["objprops"]:
+                hits = [n for n in ocl[0].body if isinstance(n, ast.FunctionDef) and n.name == pn]
+                if (len(hits) != 1 or ocb.get(pn, 0) != 1 or ocb.get("property", 0) != 0
+                        or [ast.dump(d) for d in hits[0].decorator_list] != [ast.dump(ast.Name(id="property", ctx=ast.Load()))]):
+                    raise Unsupported("%s: %s.%s is not a property defined exactly once" % (opath, ocls, pn))
+            self.obj_reserved = sorted(ocb)
         if spec.get("functions"):
             # module-level functions: each bound exactly once, by a top-level def without decorators; nothing else binds the name
             self.setattr_mode = False
@@ -284,12 +337,18 @@ class Meth:
             self.params = names[1:]
         if len(set(names)) != len(names):
             raise Unsupported("%s: duplicate parameter" % name)
+        self.objname = None
+        if ctx.spec.get("objparam") is not None:
+            if len(self.params) <= ctx.spec["objparam"]:
+                raise Unsupported("%s: no message-object parameter" % name)
+            self.objname = self.params[ctx.spec["objparam"]]
         nd = len(a.defaults)
         self.defaults = {}
         for p, d in zip(names[len(names) - nd:], a.defaults):
             self.defaults[p] = d                 # translated in the CALLER's position, must be a constant expression
         self.locals = []
         self.mutated = set()             # locals holding a list that is mutated in place (append / pop / item assignment)
+        self.nested = set()              # ... of which: mutated through two subscripts (x[k1][k2] = v, x[k1][k2].append(v))
         body = list(node.body)
         if body and isinstance(body[0], ast.Expr) and isinstance(body[0].value, ast.Constant) and isinstance(body[0].value.value, str):
             body = body[1:]
@@ -326,6 +385,12 @@ class Meth:
     def is_self(self, e):
         return self.selfname is not None and isinstance(e, ast.Name) and e.id == self.selfname and isinstance(e.ctx, ast.Load)
 
+    def is_obj(self, e):
+        return self.objname is not None and isinstance(e, ast.Name) and e.id == self.objname and isinstance(e.ctx, ast.Load)
+
+    def objx(self, callee, args):
+        return "(ECallX {| c_name := %s; c_kw := [] |} %s)" % (cstr(callee), coqlist(["(EVar %s)" % cstr(self.objname)] + args))
+
     # ---- expressions
     def const(self, name):
         kind, v = self.ctx.consts[name]
@@ -355,6 +420,15 @@ class Meth:
             if isinstance(v, str):
                 return "(EStr %s)" % cstr(v)
             raise U("constant")
+        if isinstance(e, ast.Attribute) and isinstance(e.ctx, ast.Load) and self.is_obj(e.value):
+            # an attribute of the message object: a property of its class, or getattr(msg, "<name>") for a name the class does not bind
+            if e.attr in self.ctx.spec["objprops"]:
+                return self.objx(self.ctx.spec["objclass"][1] + "." + e.attr, [])
+            if e.attr in self.ctx.obj_reserved:
+                raise U("attribute %s of the message object is bound in its class" % e.attr)
+            return self.objx("getattr", ["(EStr %s)" % cstr(e.attr)])
+        if self.is_obj(e):
+            raise U("the message object used as a value")
         if isinstance(e, ast.Name) and isinstance(e.ctx, ast.Load):
             if e.id == self.selfname:
                 raise U("bare self")
@@ -374,9 +448,9 @@ class Meth:
             return "(ESelf %s)" % cstr(e.attr)
         if isinstance(e, ast.IfExp):
             return "(EIf %s %s %s)" % (self.expr(e.test), self.expr(e.body), self.expr(e.orelse))
-        if isinstance(e, ast.List) and isinstance(e.ctx, ast.Load) and self.ctx.spec.get("recursive"):
+        if isinstance(e, ast.List) and isinstance(e.ctx, ast.Load) and (self.ctx.spec.get("recursive") or self.ctx.spec.get("lists")):
             return "(EListLit %s)" % self.exprs(e.elts)           # a real list (may be mutated); tuples stay ETuple
-        if isinstance(e, ast.Dict) and not e.keys and self.ctx.spec.get("recursive"):
+        if isinstance(e, ast.Dict) and not e.keys and (self.ctx.spec.get("recursive") or self.ctx.spec.get("lists")):
             return "EDictEmpty"
         if isinstance(e, (ast.Tuple, ast.List)) and isinstance(e.ctx, ast.Load):
             return "(ETuple %s)" % self.exprs(e.elts)
@@ -510,6 +584,8 @@ class Meth:
                 return "(ECallB %s [%s])" % ("BIsTuple" if e.args[1].id == "tuple" else "BIsInt", self.expr(e.args[0]))
             if f.id == "str" and "str" in self.ctx.builtins and len(e.args) == 1 and not kws:
                 return "(ECallB BStrOf [%s])" % self.expr(e.args[0])
+            if (f.id in ("getattr", "hasattr") and f.id in self.ctx.builtins and len(e.args) == 2 and not kws and self.is_obj(e.args[0])):
+                return self.objx(f.id, [self.expr(e.args[1])])
             if (f.id == "getattr" and "getattr" in self.ctx.builtins and len(e.args) in (2, 3) and not kws and self.is_self(e.args[0])
                     and self.ctx.setattr_mode):
                 d = "(Some %s)" % self.expr(e.args[2]) if len(e.args) == 3 else "None"
@@ -531,6 +607,10 @@ class Meth:
             if (f.attr == "get" and isinstance(f.value, ast.Name) and f.value.id in self.ctx.tables and not self.is_local(f.value.id)
                     and len(e.args) == 2 and not kws):
                 return "(ECallX {| c_name := %s; c_kw := [] |} %s)" % (cstr(f.value.id + ".get"), self.exprs(e.args))
+            # TABLE.values(): a question to the environment
+            if (f.attr == "values" and isinstance(f.value, ast.Name) and f.value.id in self.ctx.tables and not self.is_local(f.value.id)
+                    and not e.args and not kws and self.ctx.spec.get("nested")):
+                return "(ECallX {| c_name := %s; c_kw := [] |} [])" % cstr(f.value.id + ".values")
             # int.from_bytes(x, "big")
             if (isinstance(f.value, ast.Name) and f.value.id == "int" and not self.is_local("int") and "int" in self.ctx.builtins
                     and f.attr == "from_bytes" and len(e.args) == 2 and isinstance(e.args[1], ast.Constant) and e.args[1].value == "big" and not kws):
@@ -666,6 +746,52 @@ class Meth:
     def stmts(self, body):
         return coqlist([self.stmt(s) for s in body])
 
+    def simple_key(self, k):
+        """a subscript that can be evaluated twice: a local name or an int / str constant"""
+        return ((isinstance(k, ast.Name) and self.is_local(k.id) and k.id != self.objname)
+                or (isinstance(k, ast.Constant) and isinstance(k.value, (int, str)) and not isinstance(k.value, bool)))
+
+    def nested_base(self, t):
+        """t = x[k1][k2] for a local x and simple keys: (x, k1, k2), else None"""
+        if (isinstance(t, ast.Subscript) and not isinstance(t.slice, (ast.Slice, ast.Tuple)) and isinstance(t.value, ast.Subscript)
+                and not isinstance(t.value.slice, (ast.Slice, ast.Tuple)) and isinstance(t.value.value, ast.Name) and self.is_local(t.value.value.id)
+                and t.value.value.id != self.objname and self.simple_key(t.slice) and self.simple_key(t.value.slice)):
+            return t.value.value.id, t.value.slice, t.slice
+        return None
+
+    def temp(self, n):
+        # a name no Python identifier can have
+        if n not in self.locals:
+            self.locals.append(n)
+        return n
+
+    def nested_store(self, x, k1, k2, value):
+        """x[k1][k2] = value, with lists / dicts as VALUES: Python evaluates value, then x[k1] (KeyError / TypeError), then stores into that object.
+        Here:  %v = value;  %t1 = x[k1];  %t1[k2] = %v;  x[k1] = %t1   -- the same evaluation order and the same exceptions (the keys are names or
+        constants, so evaluating them twice is unobservable; the last statement replaces the value of an existing key in place), and the same
+        final value of x as long as the object x[k1] is reachable through x only (alias_discipline)."""
+        v, t1 = self.temp("%v"), self.temp("%t1")
+        self.mutated.add(x)
+        self.nested.add(x)
+        return "; ".join([
+            "SAssign (TVar %s) %s" % (cstr(v), self.expr(value)),
+            "SAssign (TVar %s) (EIndex (EVar %s) %s)" % (cstr(t1), cstr(x), self.expr(k1)),
+            "SSetItemLocal %s %s (EVar %s)" % (cstr(t1), self.expr(k2), cstr(v)),
+            "SSetItemLocal %s %s (EVar %s)" % (cstr(x), self.expr(k1), cstr(t1))])
+
+    def nested_append(self, x, k1, k2, value):
+        """x[k1][k2].append(value): Python evaluates x[k1][k2] (the receiver), then value, then appends.
+        Here:  %t1 = x[k1];  %t2 = %t1[k2];  %t2.append(value);  %t1[k2] = %t2;  x[k1] = %t1."""
+        t1, t2 = self.temp("%t1"), self.temp("%t2")
+        self.mutated.add(x)
+        self.nested.add(x)
+        return "; ".join([
+            "SAssign (TVar %s) (EIndex (EVar %s) %s)" % (cstr(t1), cstr(x), self.expr(k1)),
+            "SAssign (TVar %s) (EIndex (EVar %s) %s)" % (cstr(t2), cstr(t1), self.expr(k2)),
+            "SExpr (EListAppend %s %s)" % (cstr(t2), self.expr(value)),
+            "SSetItemLocal %s %s (EVar %s)" % (cstr(t1), self.expr(k2), cstr(t2)),
+            "SSetItemLocal %s %s (EVar %s)" % (cstr(x), self.expr(k1), cstr(t1))])
+
     def exc_names(self, t):
         if t is None:
             raise Unsupported("%s: bare except" % self.name)
@@ -687,6 +813,13 @@ class Meth:
                 and (s.value.value is None or isinstance(s.value.value, (int, str, bytes)))):
             # a = b = <constant>: the constant assigned to each name, left to right
             return "; ".join("SAssign %s %s" % (self.target(t), self.expr(s.value)) for t in s.targets)
+        if self.ctx.spec.get("nested") and isinstance(s, ast.Assign) and len(s.targets) == 1 and self.nested_base(s.targets[0]):
+            x, k1, k2 = self.nested_base(s.targets[0])
+            return self.nested_store(x, k1, k2, s.value)
+        if (self.ctx.spec.get("nested") and isinstance(s, ast.Expr) and isinstance(s.value, ast.Call) and isinstance(s.value.func, ast.Attribute)
+                and s.value.func.attr == "append" and len(s.value.args) == 1 and not s.value.keywords and self.nested_base(s.value.func.value)):
+            x, k1, k2 = self.nested_base(s.value.func.value)
+            return self.nested_append(x, k1, k2, s.value.args[0])
         if isinstance(s, ast.Assign) and len(s.targets) == 1 and isinstance(s.targets[0], ast.Subscript) and not isinstance(s.targets[0].slice, (ast.Slice, ast.Tuple)):
             t = s.targets[0]
             if isinstance(t.value, ast.Name) and self.is_local(t.value.id):
@@ -703,6 +836,10 @@ class Meth:
             if (isinstance(it, ast.Call) and isinstance(it.func, ast.Name) and it.func.id == "range" and "range" in self.ctx.builtins and not self.is_local("range")
                     and len(it.args) == 1 and not it.keywords):
                 i = "(ItRange %s)" % self.expr(it.args[0])
+            elif (isinstance(it, ast.Call) and isinstance(it.func, ast.Name) and it.func.id == "range" and "range" in self.ctx.builtins and not self.is_local("range")
+                    and len(it.args) == 2 and not it.keywords and self.ctx.spec.get("range2")):
+                # for t in range(a, b): the same ints, in the same order, as tuple(k for k in range(a, b)); both bounds evaluated once, before the loop
+                i = "(ItValue (ETupleRange \"_range\" %s %s (EVar \"_range\")))" % (self.expr(it.args[0]), self.expr(it.args[1]))
             else:
                 i = "(ItValue %s)" % self.expr(it)
             return "SFor %s %s %s" % (self.target(s.target), i, self.stmts(s.body))
@@ -812,10 +949,106 @@ def check_self_uses(m):
             raise Unsupported("%s: use of self other than self.<attr> (line %d)" % (m.name, n.lineno))
 
 
+def check_obj_uses(m):
+    """the message-object parameter occurs only as  msg.<attr>  (load)  or as the first of the two arguments of getattr / hasattr,
+    and is never rebound"""
+    if m.objname is None:
+        return
+    ok = set()
+    for n in ast.walk(m.node):
+        if isinstance(n, ast.Attribute) and isinstance(n.ctx, ast.Load) and isinstance(n.value, ast.Name) and n.value.id == m.objname:
+            ok.add(id(n.value))
+        if (isinstance(n, ast.Call) and isinstance(n.func, ast.Name) and n.func.id in ("getattr", "hasattr") and len(n.args) == 2 and not n.keywords
+                and isinstance(n.args[0], ast.Name) and n.args[0].id == m.objname):
+            ok.add(id(n.args[0]))
+    for n in ast.walk(m.node):
+        if isinstance(n, ast.Name) and n.id == m.objname and (id(n) not in ok or not isinstance(n.ctx, ast.Load)):
+            raise Unsupported("%s: use of the message object %s other than %s.<attr> / getattr / hasattr (line %d)" % (m.name, m.objname, m.objname, n.lineno))
+        if isinstance(n, ast.ExceptHandler) and n.name == m.objname:
+            raise Unsupported("%s: the message object is rebound" % m.name)
+
+
+def alias_discipline(m):
+    """lists and dicts have VALUE semantics in PyO.  For a function that builds them in locals this is exact when no object is mutated
+    while it is reachable through two names.  Enforced syntactically: a local x that is mutated in place (x[k] = v, x.append(v)) may be
+    used as a VALUE (any other load of x) only
+      (a) inside a `return` statement, or
+      (b) in the LAST statement of a `for` body whose FIRST statement is `x = {}` / `x = []`, and then x occurs nowhere outside that body
+          (after the alias is made, the next thing that happens to x is a rebinding to a fresh object, or nothing)."""
+    body = list(m.node.body)
+
+    def chain_base(e):
+        while isinstance(e, ast.Subscript):
+            e = e.value
+        return e
+
+    def mut_sites(x):
+        ok = set()
+        for n in ast.walk(m.node):
+            if isinstance(n, ast.Subscript) and isinstance(n.ctx, ast.Store):
+                b = chain_base(n)
+                if isinstance(b, ast.Name) and b.id == x:
+                    ok.add(id(b))
+            if isinstance(n, ast.Call) and isinstance(n.func, ast.Attribute) and n.func.attr in ("append", "pop"):
+                b = chain_base(n.func.value)
+                if isinstance(b, ast.Name) and b.id == x:
+                    ok.add(id(b))
+        return ok
+
+    def empty_display(v):
+        return (isinstance(v, ast.Dict) and not v.keys) or (isinstance(v, ast.List) and not v.elts)
+
+    # an object stored INTO a container that is later mutated through that container must be fresh: x[k] = {} / []
+    for x in sorted(m.nested):
+        for n in ast.walk(m.node):
+            if (isinstance(n, ast.Assign) and len(n.targets) == 1 and isinstance(n.targets[0], ast.Subscript) and isinstance(n.targets[0].value, ast.Name)
+                    and n.targets[0].value.id == x and not empty_display(n.value)):
+                raise Unsupported("%s: %s[k] = <not an empty display> although %s[k][..] is mutated (line %d)" % (m.name, x, x, n.lineno))
+            if (isinstance(n, ast.Call) and isinstance(n.func, ast.Attribute) and n.func.attr in ("append", "pop") and isinstance(n.func.value, ast.Name)
+                    and n.func.value.id == x):
+                raise Unsupported("%s: %s.append / pop although %s[k][..] is mutated (line %d)" % (m.name, x, x, n.lineno))
+
+    def fresh(st, x):
+        return (isinstance(st, ast.Assign) and len(st.targets) == 1 and isinstance(st.targets[0], ast.Name) and st.targets[0].id == x
+                and ((isinstance(st.value, ast.Dict) and not st.value.keys) or (isinstance(st.value, ast.List) and not st.value.elts)))
+
+    for x in sorted(m.mutated):
+        if x in m.params:
+            raise Unsupported("%s: parameter %s is mutated in place" % (m.name, x))
+        sites = mut_sites(x)
+        in_return = set()
+        for r in ast.walk(m.node):
+            if isinstance(r, ast.Return):
+                for n in ast.walk(r):
+                    in_return.add(id(n))
+        loads = [n for n in ast.walk(m.node) if isinstance(n, ast.Name) and n.id == x and isinstance(n.ctx, ast.Load)
+                 and id(n) not in sites and id(n) not in in_return]
+        if not loads:
+            continue
+        # (b): find the for-body that owns x
+        owners = [f for f in ast.walk(m.node) if isinstance(f, ast.For) and f.body and fresh(f.body[0], x)]
+        if len(owners) != 1:
+            raise Unsupported("%s: the mutated local %s is used as a value outside a return (line %d)" % (m.name, x, loads[0].lineno))
+        f = owners[0]
+        inside = set(id(n) for st in f.body for n in ast.walk(st))
+        last = set(id(n) for n in ast.walk(f.body[-1]))
+        for n in ast.walk(m.node):
+            if isinstance(n, ast.Name) and n.id == x and id(n) not in inside:
+                raise Unsupported("%s: the mutated local %s, aliased in a loop body, occurs outside that body (line %d)" % (m.name, x, n.lineno))
+        for n in loads:
+            if id(n) not in last or f.body[-1] is f.body[0]:
+                raise Unsupported("%s: the mutated local %s is used as a value before the end of the loop body (line %d)" % (m.name, x, n.lineno))
+        if any(isinstance(n, (ast.For, ast.While, ast.Try, ast.If)) for n in ast.walk(f.body[-1])):
+            raise Unsupported("%s: the statement that aliases %s is compound (line %d)" % (m.name, x, f.body[-1].lineno))
+
+
 def translate(repo, key, out):
     spec = SPEC[key]
     ctx = Ctx(repo, spec)
     ctx.reserved_term = "srco_%s_reserved" % key
+    if ctx.obj_reserved is not None:
+        out.append("(* every name bound in the body of class %s *)" % spec["objclass"][1])
+        out.append("Definition srco_%s_reserved : list string := %s." % (key, coqlist([cstr(x) for x in ctx.obj_reserved])))
     if ctx.setattr_mode:
         out.append("(* every name bound in the body of class %s *)" % spec["cls"])
         out.append("Definition srco_%s_reserved : list string := %s." % (key, coqlist([cstr(x) for x in ctx.reserved])))
@@ -823,6 +1056,9 @@ def translate(repo, key, out):
     for name in spec["methods"]:
         m = Meth(ctx, name)
         check_self_uses(m)
+        check_obj_uses(m)
+        if spec.get("lists"):
+            alias_discipline(m)
         meths[name] = m
     # callee later in the list; refuse recursion
     order = []
